@@ -9,3 +9,13 @@ package v1
 //@   requires r != nil && r.Info != nil
 //@   ensures [set] r.Info.Status == status && r.Info.Description == msg
 //@   ensures [others-untouched] forall q *Info :: q != r.Info ==> q.Status == old(q.Status) && q.Description == old(q.Description)
+
+//@ func Status.String
+//@   props C10
+//@   pure
+//@   ensures result == x
+
+//@ func Status.IsPending
+//@   props C09
+//@   pure
+//@   ensures result == (x == "pending-install" || x == "pending-upgrade" || x == "pending-rollback")
